@@ -28,11 +28,12 @@ class Ref:
 
 
 class Struct:
-    __slots__ = ('name', 'fields')
+    __slots__ = ('name', 'fields', 'mod')
 
-    def __init__(self, name, fields):
+    def __init__(self, name, fields, mod=None):
         self.name = name
         self.fields = list(fields)
+        self.mod = mod        # module path as printed by MIR when the bare name is ambiguous
 
     def __repr__(self):
         return '%s{%s}' % (self.name, ', '.join(repr(f) for f in self.fields))
@@ -182,7 +183,7 @@ def store(ref, val):
 def dup(v):
     """value copy (Rust `copy`, or Clone of plain data): aggregates are copied, references shared"""
     if isinstance(v, Struct):
-        return Struct(v.name, [dup(f) for f in v.fields])
+        return Struct(v.name, [dup(f) for f in v.fields], v.mod)
     if isinstance(v, Tup):
         return Tup([dup(f) for f in v.fields])
     if isinstance(v, Enum):
